@@ -634,10 +634,6 @@ class Template(Struct):
 
         self.attributes = list()
 
-        attribute = Attribute()
-        attribute.read(tstream, kmip_version=kmip_version)
-        self.attributes.append(attribute)
-
         while self.is_tag_next(Tags.ATTRIBUTE, tstream):
             attribute = Attribute()
             attribute.read(tstream, kmip_version=kmip_version)
